@@ -192,9 +192,14 @@ def features(events, obs):
     """What a scenario exercises (for `nontrivial` and the histograms)."""
     f = set()
     lost_seen = False
+    ckind = "cancelled"
     for e, ol in zip(events, obs):
         op = e.split()[0]
         kinds = [o.split()[0] for o in ol]
+        if op == "ckind":
+            ckind = e.split()[1]
+        if "cancelConnect" in kinds:
+            f.add("attempt_cancelled_endpoint_reports_" + ckind)
         for o in ol:
             w = o.split()
             if w[0] == "fire":
@@ -350,7 +355,7 @@ ALPHABET = [
     "lost", "close", "disconnect", "meta 2 9093", "sync ok", "sync fail",
 ]
 SMALL_ALPHABET = ["make 1 1", "make 2 1", "cancel 1", "connOk", "connFail", "advance 1", "bytes " + F1, "bytes " + F2, "lost", "close", "disconnect",
-                  "sync ok", "sync fail"]
+                  "sync ok", "sync fail", "ckind connecting"]
 EX_HEADER = (1, 9092, ["1"])
 
 
